@@ -156,6 +156,10 @@ func genJSON(rng *rand.Rand, depth int) string {
 	case r == 2:
 		return pick(rng, "true", "false", "null")
 	case r == 3 || r == 4:
+		if rng.Intn(4) == 0 { // literals no machine number holds: the rule is about the text (RFC 8259 puts no limit on range or precision)
+			return pick(rng, "1e309", "-1e999", "2E308", "1e-400", "0e999", "1.7976931348623157e308", "1.7976931348623159e308", "123456789012345678901234567890",
+				"-"+strings.Repeat("9", 310+rng.Intn(100)), "0."+strings.Repeat("0", 330)+"1", "1E+400", "18446744073709551616", "-9223372036854775809", "4.9e-325")
+		}
 		return pick(rng, "0", "-0", "12", "-3.5", "1e5", "2.5E-3", "10.01", "1E+2")
 	default:
 		return `"` + pick(rng, "", "a", "测试", `\n`, `\"`, `é`, "a b", `\\`, `\/`) + `"`
